@@ -187,10 +187,10 @@ func appendSetHashBytes(val Value, buf *bytes.Buffer, marks ValueMarks) {
 		// here just so that we can get far enough along to fix it up for
 		// everything else in this package.
 		if bf, ok := val.v.(big.Float); ok {
-			buf.WriteString(bf.String())
+			buf.WriteString(numberSetHashString(&bf))
 			return
 		}
-		buf.WriteString(val.v.(*big.Float).String())
+		buf.WriteString(numberSetHashString(val.v.(*big.Float)))
 		return
 	case Bool:
 		if val.v.(bool) {
@@ -275,4 +275,22 @@ func appendSetHashBytes(val Value, buf *bytes.Buffer, marks ValueMarks) {
 
 	// should never get down here
 	panic(fmt.Sprintf("unsupported type %#v in set hash", val.ty))
+}
+
+// numberSetHashString returns a string that is the same for any two numbers
+// that rawNumberEqual would consider to be equal, so that equal numbers always
+// land in the same set bucket and sort to the same position.
+//
+// It must be kept consistent with rawNumberEqual: whole numbers are compared
+// by their exact integer value (so negative zero is the same as zero, and the
+// precision of the big.Float is irrelevant) and all other numbers by their
+// shortest decimal representation.
+func numberSetHashString(f *big.Float) string {
+	if f.IsInf() {
+		return f.String()
+	}
+	if i, acc := f.Int(nil); acc == big.Exact {
+		return i.String()
+	}
+	return f.Text('f', -1)
 }
